@@ -33,6 +33,8 @@ TGet == /\ IsEvent("get") /\ Ev.rid \in RanOf(rids)
 
 TIter == /\ IsEvent("iter") /\ Iter
          /\ [q \in DOMAIN ret'.res |-> <<rids[ret'.res[q][1]], ret'.res[q][2]>>] = Ev.items
+         \* the mutable iterator (where the collection has one) yields exactly the same items
+         /\ ("items_mut" \in DOMAIN Ev => Ev.items_mut = Ev.items)
          /\ (Ev.len >= 0 => Ev.len = ret'.len) /\ UNCHANGED rids
 
 TFind == /\ IsEvent("find") /\ Find(Ev.v)
